@@ -18,7 +18,7 @@ func genLease(c *Ctx) error {
 		nHist = 140
 	}
 	directedQueuedImport(c)
-	if c.Arg == "queued-import" {
+	if c.Flag("queued-import") {
 		return nil
 	}
 	directedFailedHandoff(c)
